@@ -203,7 +203,17 @@ def classify(ctx, name, tags, jit, kv, known, stats, replay_line):
         kf(ctx, "K17a", "id=K17a class=interrupt_request_overlaps_own_stop_round replay=%s (shape %s, jit=%s: %s requests=%s)"
                           % (known["K17a"]["replay"], name, jit, oc, kv.get("requests")))
         return
-    if oc == "hang" and "modloop" in tags and jit == "true" and "K17b" in known:
+    native_only = False
+    if oc == "hang" and jit == "true" and "K17b" in known and "modloop" not in tags:
+        # K17b by cause: native code contains no poll (table GenPolls, obligation native_back_edges_have_no_poll), so a loop
+        # that the JIT has compiled to a native back-edge - a module-level self tail call, but also the lifted loop procedure of
+        # a top-level `while` / named let once it has run often enough to be compiled - is not interrupted although the
+        # controller holds the request.  Class predicate: the very same case line is interrupted at once with STEEL_JIT=false
+        # (the request itself is delivered; only native code does not look).
+        again = run_cases([replay_line], "false", 60)
+        kv2 = next(iter(again.values()), {}) if again else {}
+        native_only = kv2.get("outcome") == "interrupted" and kv2.get("probe") == "ok"
+    if oc == "hang" and ("modloop" in tags or native_only) and jit == "true" and "K17b" in known:
         stats["k17b"] += 1
         kf(ctx, "K17b", "id=K17b class=jit_native_self_tail_loop replay=%s (shape %s: no request of %s got through)"
                           % (known["K17b"]["replay"], name, kv.get("requests")))
